@@ -34,7 +34,7 @@ def main():
       continue
     prop = d.split('_')[0]
     t0 = time.time()
-    p = subprocess.run([os.path.join(VERIF, 'tools', 'try_patch.sh'), patch, prop, '--budget', budget, '--jobs', '10'],
+    p = subprocess.run([os.path.join(VERIF, 'tools', 'try_patch.sh'), patch, prop, '--budget', budget, '--jobs', '14'],
                        stdout=subprocess.PIPE, stderr=subprocess.STDOUT, timeout=3600)
     out = p.stdout.decode(errors='replace')
     dt = time.time() - t0
@@ -60,7 +60,7 @@ def main():
             'demo_adapted': os.path.exists(os.path.join(path, 'demo_as_delivered.py')),
         },
         'check_run': {
-            'cmd': 'tools/try_patch.sh seeded/%s/patch.diff %s --budget %s --jobs 10' % (d, prop, budget),
+            'cmd': 'tools/try_patch.sh seeded/%s/patch.diff %s --budget %s --jobs 14' % (d, prop, budget),
             'repo_head': repo_head, 'verif_head': verif_head, 'applies': applies, 'exit_code': rc,
             'detected': rc == 1 and bool(clauses), 'violation_clauses': sorted(set(clauses))[:4],
             'wall_s': round(dt, 1), 'date_utc': time.strftime('%Y-%m-%dT%H:%M:%SZ', time.gmtime()),
